@@ -108,10 +108,13 @@ Section WithSbox.
                        (mkrkey (rk_at rk (i - s_off256)) (rk_at rk (i - t_off256)) slli256 shuffle rcon))
                 mk256 (load_keys loads256 key (rkeys_init slots)).
 
-    (* struct crypto_aes_key_aesni: (rkeys, nr); None = the warn0 + NULL exit for other lengths *)
-    Definition key_expand_aesni (key : list N) : option (list m128 * N) :=
-      if (length key =? 16)%nat then Some (key_expand_128_aesni key, nr128)
-      else if (length key =? 32)%nat then Some (key_expand_256_aesni key, nr256)
+    (* crypto_aes_key_expand_aesni; struct crypto_aes_key_aesni is (rkeys, nr); None = the
+       warn0 + NULL exit for other lengths.  The two expansion functions are arguments so that
+       the instance for the regenerated tables mentions them by name. *)
+    Definition key_expand_aesni (expand128 expand256 : list N -> list m128) (key : list N)
+      : option (list m128 * N) :=
+      if (length key =? 16)%nat then Some (expand128 key, nr128)
+      else if (length key =? 32)%nat then Some (expand256 key, nr256)
       else None.
 
     (* crypto_aes_encrypt_block_aesni_m128i *)
